@@ -159,26 +159,34 @@ cfg["C21"] = {
     "assumptions": [cal_stubs],
 }
 
-ops_q = P("VerifReallocOp", "fault=8") + P("VerifRemoveOp", "fault=14") + P("VerifDissociateOp", "fault=12")
-create_op = P("VerifCreateOp", "fault=24,count=2") + P("VerifReplaceOp", "fault=16")
+ops_q = P("VerifReallocOp", "fault=8") + P("VerifRemoveOp", "fault=14", "fault=20,nodes=2,sched=lazy") + P("VerifDissociateOp", "fault=12", "fault=20,nodes=2,sched=lazy")
+create_op = P("VerifCreateOp", "fault=24,count=2", "fault=24,count=2,sched=lazy") + P("VerifReplaceOp", "fault=16", "fault=16,sched=lazy")
+sched_t = P("VerifRemoveOp", "fault=20,nodes=2,sched=lazy,choices=4", "fault=20,nodes=2,sched=eager,choices=4") + P("VerifDissociateOp", "fault=20,nodes=2,sched=lazy,choices=4") + P("VerifCreateOp", "fault=24,count=2,sched=lazy,choices=2")
+sched_text = ("Goroutines and ants pool tasks are scheduled cooperatively (a goroutine gives up control only where it blocks - channel receive, select, WaitGroup.Wait, Mutex.Lock - where it spawns, and where it ends) under TWO fixed policies: eager (a spawned goroutine runs at once; harness arguments without sched=) and lazy (the spawning side runs on until it blocks, then the oldest runnable goroutine; sched=lazy); "
+              "in the thorough tier the first 2-4 scheduling points with several runnable goroutines are additionally SYMBOLIC choices (choices=n: one explored path per candidate). Sends never block (channels are FIFO queues)")
 node_ops = P("VerifAddNodeOp", "fault=6") + P("VerifRemoveNodeOp", "fault=6") + P("VerifSetNodeOp", "fault=8")
+conc = lambda *pairs: P("VerifConcurrentOps", *[f"a={a},b={b},preempt={k}" for a, b, k in pairs])
+conc_text = ("TWO API calls run concurrently as two goroutines over one world whose locks really exclude each other; every external call of the model "
+             "(store / resource manager / engine / log / lock acquire and release) is a scheduling point, and the solver decides at which of them the other operation takes over, "
+             "within a preemption budget of 2 (thorough 3): every interleaving at external-call granularity with at most that many preemptions is explored. "
+             "Operations: remove w1, remove w2, realloc w1, realloc w2, dissociate w2, remove node b, create one instance on b, set-node b (delta capacity); w2 sits on node a or b (symbolic); no injected fault")
 ledger_assume = [cal_stubs,
     "abstract ledger world: store = set of workload records with one symbolic scalar resource amount each; resource manager = per-node usage with delta/incr semantics (the real plugin arithmetic is verified in C04/C08 and composed by argument only); engine = set of containers with the amount applied",
     "exactly one fallible model call fails, at a symbolic position among all store/plugin/engine calls the operation makes; every call after the injected fault succeeds (compensating steps succeed)",
-    "goroutines and ants pool tasks run to completion at their spawn point and channels are unbounded FIFO queues: one sequential schedule per operation, no interleavings; the fire-and-forget remap (RemapResourceAndLog) is skipped",
+    sched_text + "; the fire-and-forget remap (RemapResourceAndLog) is skipped",
     "pre-state satisfies usage(node) = sum of recorded workloads (the invariant itself), amounts in [0,2^30]"]
 cfg["C10"] = {
     "title": "Node usage always equals the sum of the workloads recorded on the node", "design_ref": "DESIGN.md §4 C10",
-    "runs": [{"dir": CAL, "inline_go": True, "quick": ops_q + create_op, "thorough": ops_q + create_op + P("VerifCreateOp", "fault=30,count=3", "two=1,count=3,slots=3"), "samples": 4}],
-    "bounds": "one inductive step per operation (ReallocResource, RemoveWorkload, DissociateWorkload, CreateWorkload, ReplaceWorkload through the exported API) from an arbitrary ledger state satisfying the invariant (2 workloads on one node; create: 2 empty nodes with 0-2 deployable slots each, AUTO, count<=2/3), with no fault or one fault at any call position (<=24)",
-    "outside": "whole-API histories, interleavings of concurrent operations, the real plugin arithmetic (C04/C08), capacity bounds",
+    "runs": [{"dir": CAL, "inline_go": True, "quick": ops_q + create_op + conc((0, 1, 2), (2, 3, 2), (0, 3, 2), (4, 2, 2)), "thorough": ops_q + create_op + sched_t + P("VerifCreateOp", "fault=30,count=3", "two=1,count=3,slots=3") + conc((0, 1, 3), (2, 3, 3), (0, 3, 3), (4, 2, 3), (0, 2, 3), (1, 6, 2), (3, 6, 2)), "samples": 4}],
+    "bounds": "one inductive step per operation (ReallocResource, RemoveWorkload, DissociateWorkload, CreateWorkload, ReplaceWorkload through the exported API) from an arbitrary ledger state satisfying the invariant (2 workloads on one node, or spread over two nodes by a symbolic choice; create: 2 empty nodes with 0-2 deployable slots each, AUTO, count<=2/3), with no fault or one fault at any call position (<=24), under the eager and the lazy schedule (thorough: plus 2-4 symbolic scheduling choices). CONCURRENT operations on different workloads: " + conc_text + "; pairs remove x remove, realloc x realloc, remove x realloc, dissociate x realloc (thorough: + same-workload remove x realloc, remove/realloc x create)",
+    "outside": "whole-API histories, more than two concurrent calls or more than 2-3 preemptions, preemption inside an external call, the real plugin arithmetic (C04/C08), capacity bounds",
     "assumptions": ledger_assume,
 }
 cfg["C11"] = {
     "title": "A failed cluster operation leaves no lasting effect", "design_ref": "DESIGN.md §4 C11",
-    "runs": [{"dir": CAL, "inline_go": True, "quick": ops_q + node_ops + create_op, "thorough": ops_q + node_ops + create_op + P("VerifCreateOp", "fault=30,count=3"), "samples": 4}],
-    "bounds": "ReallocResource, RemoveWorkload, DissociateWorkload, CreateWorkload, ReplaceWorkload, AddNode, RemoveNode, SetNode through the exported API on a ledger of 2 workloads / 1-2 nodes; every position of the single failing step (<=24 positions)",
-    "outside": " failures of compensating steps; concurrency; values returned through the `return v, f()` idiom (evaluation order unspecified by the language, go/ssa and gc differ)",
+    "runs": [{"dir": CAL, "inline_go": True, "quick": ops_q + node_ops + create_op, "thorough": ops_q + node_ops + create_op + sched_t + P("VerifCreateOp", "fault=30,count=3"), "samples": 4}],
+    "bounds": "ReallocResource, RemoveWorkload, DissociateWorkload, CreateWorkload, ReplaceWorkload, AddNode, RemoveNode, SetNode through the exported API on a ledger of 2 workloads / 1-2 nodes; every position of the single failing step (<=24 positions); eager and lazy schedule (thorough: plus 2-4 symbolic scheduling choices)",
+    "outside": " failures of compensating steps; operations running concurrently with each other and preemption between two blocking points; values returned through the `return v, f()` idiom (evaluation order unspecified by the language, go/ssa and gc differ)",
     "assumptions": ledger_assume,
 }
 
@@ -232,25 +240,25 @@ cfg["C06"]["runs"].append({"dir": SCHED, "permute_ranges": [GCP], "quick": [], "
 
 cfg["C12"] = {
     "title": "Deployment results are complete and truthful", "design_ref": "DESIGN.md §4 C12 / §7.2",
-    "runs": [{"dir": CAL, "inline_go": True, "quick": P("VerifCreateOp", "fault=24,count=2", "fault=30,count=3"), "thorough": P("VerifCreateOp", "fault=24,count=2", "fault=30,count=3", "two=1,count=3,slots=3"), "samples": 4}],
-    "bounds": "Calcium.CreateWorkload through the exported API: AUTO over two nodes with 0-2 deployable slots each (symbolic), count 1-2 (thorough 3), symbolic resource amount, no fault or one fault at any of the store / plugin / engine / WAL calls (<=24 positions). ONE sequential schedule: pool tasks and goroutines run to completion at their spawn point, channels are FIFO queues",
-    "outside": "every other interleaving of the per-node and per-instance goroutines (the property is quantified over requests and faults, not schedules; other schedules are not explored); other strategies and node filters at this level (the strategies themselves: C01-C03); file injection, hooks, image pull",
+    "runs": [{"dir": CAL, "inline_go": True, "quick": P("VerifCreateOp", "fault=24,count=2", "fault=30,count=3", "fault=24,count=2,sched=lazy"), "thorough": P("VerifCreateOp", "fault=24,count=2", "fault=30,count=3", "two=1,count=3,slots=3", "fault=24,count=2,sched=lazy", "fault=30,count=3,sched=lazy", "fault=24,count=2,sched=lazy,choices=2", "fault=24,count=2,sched=eager,choices=2"), "samples": 4}],
+    "bounds": "Calcium.CreateWorkload through the exported API: AUTO over two nodes with 0-2 deployable slots each (symbolic), count 1-2 (thorough 3), symbolic resource amount, no fault or one fault at any of the store / plugin / engine / WAL calls (<=24 positions). Cooperative scheduling under the eager and the lazy policy (thorough: plus 2 symbolic scheduling choices)",
+    "outside": "preemption of the per-node and per-instance goroutines between two blocking points and schedules beyond the stated ones (the property is quantified over requests and faults, not schedules); other strategies and node filters at this level (the strategies themselves: C01-C03); file injection, hooks, image pull",
     "assumptions": ledger_assume,
 }
 
 cfg["C14"] = {
     "title": "A crash during deployment is repaired by recovery", "design_ref": "DESIGN.md §4 C14 / §7.2",
-    "runs": [{"dir": CAL, "inline_go": True, "quick": P("VerifCrashRecovery", "crash=24,count=2") + ["VerifDecodeProbe"], "thorough": P("VerifCrashRecovery", "crash=24,count=2", "crash=32,count=3") + ["VerifDecodeProbe"], "samples": 6}],
+    "runs": [{"dir": CAL, "inline_go": True, "quick": P("VerifCrashRecovery", "crash=24,count=2", "crash=24,count=2,sched=lazy") + ["VerifDecodeProbe"], "thorough": P("VerifCrashRecovery", "crash=24,count=2", "crash=32,count=3", "crash=24,count=2,sched=lazy", "crash=24,count=2,sched=lazy,choices=2") + ["VerifDecodeProbe"], "samples": 6}],
     "bounds": "CreateWorkload (AUTO, two nodes with 0-2 deployable slots, count 1-2, thorough 3) is stopped at EVERY position between two externally visible steps (store / plugin / engine / log calls, <=24-32 positions, symbolic): from that call on nothing the dying process does reaches the store, the resource records, the engine or the log. Then a new Calcium instance sharing those runs the real WAL handlers (CreateWorkloadHandler, WorkloadResourceAllocatedHandler, ProcessingCreatedHandler) through Recover",
-    "outside": "the bbolt log file itself and process restart (the log is a model with Hydro's replay semantics - those are C16); goroutine interleavings (one sequential schedule); crashes during recovery; the create-lambda event; the real plugin's repair arithmetic (C15) is replaced by usage := sum of recorded workloads",
+    "outside": "the bbolt log file itself and process restart (the log is a model with Hydro's replay semantics - those are C16); schedules other than the eager and the lazy cooperative one (thorough: plus 2 symbolic scheduling choices); crashes during recovery; the create-lambda event; the real plugin's repair arithmetic (C15) is replaced by usage := sum of recorded workloads",
     "assumptions": ledger_assume + ["a crash is modelled by freezing the world: the interrupted operation keeps executing its error paths in memory but no call has any effect any more (equivalent to process death for everything persistent)", "lock leases of the dead process have expired when the new instance starts"],
 }
 
 cfg["C30"] = {
     "title": "Run-and-wait workloads are always cleaned up", "design_ref": "DESIGN.md §7.2 / §7.5",
-    "runs": [{"dir": CAL, "inline_go": True, "quick": P("VerifRunAndWait", "count=2"), "thorough": P("VerifRunAndWait", "count=2", "count=3"), "samples": 4}],
-    "bounds": "Calcium.RunAndWait (no stdin) through the exported API on top of the real CreateWorkload pipeline: AUTO over two nodes with 0-2 deployable slots (symbolic), count 1-2 (thorough 3), exit code in {0,1,255}; engine outcomes: logs and wait succeed, or the n-th fetch-logs call fails, or the n-th wait call fails. ONE sequential schedule (goroutines run to completion at spawn, channels are FIFO queues); log streams end immediately",
-    "outside": "other interleavings; stdin/attach mode; log content forwarding (bufio scanning of real output); failures of the removal itself (the property quantifies over log/wait outcomes); the RPC layer on top (rpc.go)",
+    "runs": [{"dir": CAL, "inline_go": True, "quick": P("VerifRunAndWait", "count=2", "count=2,sched=lazy"), "thorough": P("VerifRunAndWait", "count=2", "count=3", "count=2,sched=lazy", "count=2,sched=lazy,choices=4", "count=2,sched=eager,choices=3"), "samples": 4}],
+    "bounds": "Calcium.RunAndWait (no stdin) through the exported API on top of the real CreateWorkload pipeline: AUTO over two nodes with 0-2 deployable slots (symbolic), count 1-2 (thorough 3), exit code in {0,1,255}; engine outcomes: logs and wait succeed, or the n-th fetch-logs call fails, or the n-th wait call fails. Cooperative scheduling under the eager and the lazy policy (thorough: plus 3-4 symbolic scheduling choices; sends never block: channels are FIFO queues); log streams end immediately",
+    "outside": "preemption between two blocking points and schedules beyond the stated ones; stdin/attach mode; log content forwarding (bufio scanning of real output); failures of the removal itself (the property quantifies over log/wait outcomes); the RPC layer on top (rpc.go)",
     "assumptions": ledger_assume,
 }
 
@@ -264,10 +272,19 @@ cfg["C24"] = {
 
 cfg["C13"] = {
     "title": "Deploy status counts are exact and in-progress markers are cleaned up", "design_ref": "DESIGN.md §4 C13 / §7.2",
-    "runs": [{"dir": CAL, "inline_go": True, "quick": P("VerifDeployStatus", "fault=24,count=2"), "thorough": P("VerifDeployStatus", "fault=24,count=2", "fault=32,count=3,slots=3"), "samples": 4}],
-    "bounds": "the cluster half of the property: Calcium.CreateWorkload (AUTO over two nodes with 0-2 deployable slots, 0-2 earlier workloads of the same application entrypoint per node, count 1-2, thorough 3) with no fault or one fault at any store / plugin / engine / WAL call (<=24-32 positions); the deploy status (recorded workloads + in-progress marker) is observed at EVERY intercepted call of the deployment and after it has returned. ONE sequential schedule (pool tasks and goroutines run to completion at their spawn point)",
-    "outside": "the two store backends themselves: that etcd's BatchCreateAndDecr transaction / Redis' pipeline add the workload and decrement the marker atomically, and how GetDeployStatus scans keys, is I/O against external servers and is replaced by a model with exactly that contract; other goroutine interleavings; a failing DeleteProcessing (a store failure, not an instance failure) leaves the marker by construction",
+    "runs": [{"dir": CAL, "inline_go": True, "quick": P("VerifDeployStatus", "fault=24,count=2", "fault=24,count=2,sched=lazy"), "thorough": P("VerifDeployStatus", "fault=24,count=2", "fault=32,count=3,slots=3", "fault=24,count=2,sched=lazy", "fault=24,count=1,sched=lazy,choices=2"), "samples": 4}],
+    "bounds": "the cluster half of the property: Calcium.CreateWorkload (AUTO over two nodes with 0-2 deployable slots, 0-2 earlier workloads of the same application entrypoint per node, count 1-2, thorough 3) with no fault or one fault at any store / plugin / engine / WAL call (<=24-32 positions); the deploy status (recorded workloads + in-progress marker) is observed at EVERY intercepted call of the deployment and after it has returned. Cooperative scheduling under the eager and the lazy policy (thorough: plus 2 symbolic scheduling choices)",
+    "outside": "the two store backends themselves: that etcd's BatchCreateAndDecr transaction / Redis' pipeline add the workload and decrement the marker atomically, and how GetDeployStatus scans keys, is I/O against external servers and is replaced by a model with exactly that contract; preemption between two blocking points and schedules beyond the stated ones; a failing DeleteProcessing (a store failure, not an instance failure) leaves the marker by construction",
     "assumptions": ledger_assume + ["store model: CreateProcessing sets the node's marker to the given count, AddWorkload(workload, processing) records the workload and decrements the marker in one step, DeleteProcessing removes it, GetDeployStatus = recorded workloads of the node + marker", "instances planned for a node = the count the deployment asks the resource manager to allocate for it (rmgr.Alloc argument)"],
+}
+
+cfg["C22"] = {
+    "title": "Pods, nodes, node resources and workloads stay referentially consistent", "design_ref": "DESIGN.md §7.5 C22",
+    "runs": [{"dir": CAL, "inline_go": True, "quick": conc((5, 6, 2), (6, 5, 2), (7, 6, 2), (5, 1, 2), (5, 7, 2)) + P("VerifAddNodeOp", "fault=6") + P("VerifRemoveNodeOp", "fault=6"),
+              "thorough": conc((5, 6, 3), (6, 5, 3), (7, 6, 3), (5, 1, 3), (5, 7, 2), (1, 6, 2), (6, 6, 2)) + P("VerifAddNodeOp", "fault=6") + P("VerifRemoveNodeOp", "fault=6"), "samples": 2}],
+    "bounds": conc_text + ". Checked at the quiescent point (both calls returned, every goroutine ended): every recorded workload belongs to a recorded node, every recorded node has a resource record and vice versa. Pairs: remove-node x create, create x remove-node, set-node x create, remove-node x remove-workload, remove-node x set-node (thorough: + remove x create, create x create); plus the single-fault add-node / remove-node steps of C11",
+    "outside": "pods (RemovePod's emptiness check lives in the stores: etcd/Redis I/O); more than two concurrent calls; more than 3 preemptions; preemption inside one external call or between two of them; the stores' own transactions",
+    "assumptions": ledger_assume + ["locks are blocking mutual-exclusion models keyed like the real ones; lock leases never expire"],
 }
 
 cfg["C35"] = {
@@ -279,6 +296,7 @@ cfg["C35"] = {
 }
 
 meta = {
+    "C22": "Two real cluster API calls (RemoveNode, CreateWorkload, SetNode, RemoveWorkload ...) run as two interpreted goroutines over one ledger world with blocking locks under gosym's cooperative scheduler; each external call is a scheduling point and the preemption decisions are symbolic Booleans, so the solver-driven exploration covers every interleaving at external-call granularity within the preemption budget; z3-decided paths prove referential consistency at quiescence, outside one recorded finding (remove-node racing with a deployment on that node).",
     "C13": "The real CreateWorkload pipeline runs against the ledger world whose store model keeps the in-progress marker with the BatchCreateAndDecr contract; an observer evaluates the reported deploy status at every intercepted call; z3-decided paths prove the status stays within [recorded workloads, prior + planned] during the deployment and equals the recorded workloads with no marker left after it returned, for every single-fault position.",
     "C35": "simple.BasicCredential.GetRequestMetadata, grpc metadata.NewIncomingContext/FromIncomingContext and BasicAuth.{UnaryInterceptor,StreamInterceptor,doAuth} are executed on usernames/passwords made of symbolic bytes with a stub for the HTTP/2 transport; z3 proves per path that both calls are served iff the usernames are the same metadata key and the passwords are equal; natively replayed paths repeat both calls over a real in-process gRPC connection.",
     "C01": "Every feasible path of strategy.Deploy and the five real strategy functions (real container/heap and sort SSA) is executed with capacities, counts, need, limit, usage and rate symbolic; on each path z3 proves the plan assertions (only candidates, 0<=d<=capacity, exact totals, EACH/FILL selection sizes, AUTO node limit) for all values inside the bounds, or returns a model that is replayed natively. Bounded by node count and, for AUTO/GLOBAL, by need.",
